@@ -37,6 +37,7 @@ def apply() -> None:
         return (out, end, err)
 
     _patch_percent_format()
+    _patch_setattr()
     utf_8.Utf8StemEncoder._encode_chunk = classmethod(_encode_chunk)
     utf_8.Utf8StemEncoder._decode_chunk = classmethod(_decode_chunk)
 
@@ -120,3 +121,25 @@ def opaque_int_text() -> None:
 
     bl.SymbolicBytes.__repr__ = _brepr
     bl.SymbolicBytes.__format__ = lambda self, fmt: "<bytes>"
+
+
+def _patch_setattr() -> None:
+    """CrossHair 0.0.110's setattr patch tests `type(name) is AnySymbolicStr` (never true for the
+    concrete symbolic-string classes), so a symbolic attribute name reaches the C setattr, which
+    raises "attribute name must be string" and the iteration is silently skipped - forever.
+    Realise the *name* (as the getattr patch does); the value stays symbolic."""
+    from crosshair import core
+    from crosshair.core import realize
+    from crosshair.libimpl.builtinslib import AnySymbolicStr
+    from crosshair.libimpl.builtinslib import SymbolicValue
+    from crosshair.tracers import NoTracing
+
+    def _setattr(obj, name, value):
+        with NoTracing():
+            if isinstance(obj, SymbolicValue):
+                obj = realize(obj)
+            if isinstance(name, AnySymbolicStr):
+                name = realize(name)
+            return setattr(obj, name, value)
+
+    core._PATCH_REGISTRATIONS[setattr] = _setattr
